@@ -175,7 +175,7 @@ def job_continuous(tier):
             continue
         wv = dict(x=x, mu=mu, var=var, a=a, b=b)
         rb = ("uquad", lambda v: {"values": v, "default": False})
-        out.append(prove(f"C19/uquad/path{i}/F(T(x))==Phi(z)", p.conds, Fuq(lift(p.out), a.e, b.e) == U, T, witness_vars=wv, replay=rb))
+        out += _uquad_staged(f"C19/uquad/path{i}", p.conds, lift(p.out), a.e, b.e, U, Fuq, T, wv, rb)
 
     def run_uq_d():
         sym.assume(var > 0)
@@ -192,8 +192,23 @@ def job_continuous(tier):
         hw = sqrt(z3.RealVal("5/3") * var.e)
         if i == 0:
             out.append(prove("C19/uquad/default/moment_conditions=>bounds", [var.e > 0] + mom, z3.And(ad == mu.e - hw, bd == mu.e + hw), T, witness_vars=wv, replay=rb))
-        out.append(prove(f"C19/uquad/default/path{i}/F(T(x);bounds)==Phi(z)", p.conds, Fuq(lift(p.out), mu.e - hw, mu.e + hw) == U, T, witness_vars=wv, replay=rb))
+        out += _uquad_staged(f"C19/uquad/default/path{i}", p.conds, lift(p.out), mu.e - hw, mu.e + hw, U, Fuq, T, wv, rb)
     return out
+
+
+def _uquad_staged(tag, conds, Tx, aa, bb, U, Fuq, T, wv, rb):
+    """F(T(x)) == Phi(z) in two steps: (i) (T-beta)^3 == 3U/alpha + gamma (cube-root branch of the code),
+    (ii) the rational identity alpha/3*((3U/alpha+gamma) + (beta-a)^3) == U; then the composite with (i) as lemma"""
+    al = 12 / ((bb - aa) * (bb - aa) * (bb - aa))
+    be = (aa + bb) / 2
+    ga = (aa - bb) * (aa - bb) * (aa - bb) / 8
+    d = Tx - be
+    L1 = d * d * d == 3 * U / al + ga
+    res = [prove(tag + "/lemma: (T-beta)^3 == 3U/alpha+gamma", conds, L1, T, witness_vars=wv, replay=rb)]
+    Y = z3.Real("uq_Y")
+    res.append(prove(tag + "/lemma: alpha/3*(Y+(beta-a)^3)==U for Y=3U/alpha+gamma", [aa < bb, Y == 3 * U / al + ga], al / 3 * (Y + (be - aa) * (be - aa) * (be - aa)) == U, T, witness_vars=wv, replay=rb, instantiate=False))
+    res.append(prove(tag + "/F(T(x))==Phi(z)", conds, Fuq(Tx, aa, bb) == U, T, witness_vars=wv, replay=rb, extra=[L1], note="uses the cube lemma"))
+    return res
 
 
 def job_zinnharvey(tier):
